@@ -119,7 +119,8 @@ def judge_multi(ctx, sid, s, sp, st, count, model):
         return bad("died" if s["exit"] == "died" else "stuck",
                    "the client process %s: %s" % ("died" if s["exit"] == "died" else "did not finish", s["stderr"][:300]),
                    "every call returns", "process %s\n%s" % (s["exit"], s["stderr"][-2500:]))
-    dcs = {"2": "B", "12": "B", "3": "C"}
+    dcs = {"2": "B", "12": "B", "3": "C", "2>3": "C", "12>3": "C", "3>2": "B"}
+    chain = any(">" in x for x in xs)
     same = len(set(dcs[x] for x in xs)) == 1
     allowed = set(dcs[x] for x in xs)
     if count and st is not None:
@@ -145,7 +146,8 @@ def judge_multi(ctx, sid, s, sp, st, count, model):
                        % (i, x, got, detail, o.get("caller-%d-repeats" % i), o.get("caller-%d-arrived-on" % i)), want, got + detail)
         if same:
             reps = o.get("caller-%d-repeats" % i, "")
-            wantreps = ",".join("%s:%d" % (n, 1 if n == dcs[x] else 0) for n in "ABC")
+            via = {"2>3": "B", "12>3": "B", "3>2": "C"}.get(x)
+            wantreps = ",".join("%s:%d" % (n, 1 if n in (dcs[x], via) else 0) for n in "ABC")
             if reps != wantreps:
                 return bad("multi-repeat-count", "the request of caller %d arrived %s" % (i, reps),
                            "repeated once at the data centre of X and nowhere else (%s)" % wantreps, reps)
@@ -157,6 +159,12 @@ def judge_multi(ctx, sid, s, sp, st, count, model):
     if o.get("later-request") != "pong" or o.get("later-request-went-to") != o.get("addr-after"):
         return bad("multi-later-request", "a later request: %s via %s" % (o.get("later-request"), o.get("later-request-went-to")),
                    "completes at the data centre the client is at (%s)" % o.get("addr-after"), "%s via %s" % (o.get("later-request"), o.get("later-request-went-to")))
+    if chain:
+        # a request redirected twice is outside the protocol model of Misc/Migrate.v (one target per caller); the sequential model
+        # decides it (Misc/RpcError.v make_request, C17_live_migrate_twice): written once to each data centre on the way, answered by the last
+        if count and st is not None:
+            st["multi"]["redirected_twice"] = st["multi"].get("redirected_twice", 0) + 1
+        return None
     # the outcome must be one the protocol model (Misc/Migrate.v, proved properties) can end in: explored exhaustively by the
     # extracted step function from the state in which every caller has written its request to A and waits
     mo = model.get("r" + sp["xs"])
@@ -338,7 +346,7 @@ def stage(ctx):
         for sid, s in sorted(scen.items(), key=lambda kv: int(kv[0])):
             sp0 = spec_fields(s["spec"])
             if sp0.get("kind") == "multi":
-                if sp0["xs"] not in multi_xs:
+                if sp0["xs"] not in multi_xs and ">" not in sp0["xs"]:
                     multi_xs.add(sp0["xs"])
                     f.write("R\tr%s\t%s\n" % (sp0["xs"], sp0["xs"]))   # all outcomes of the protocol model (Misc/Migrate.v)
                 continue
